@@ -27,14 +27,6 @@ inductive Err
   | noLock | badKey | waitTimeout | noLockOrKey | canceled
 deriving DecidableEq, Repr
 
-/-- a `ManagedLock`: size, key list, FIFO of blocked requests (the semaphore's waiter list), idle clock -/
-structure LockRec where
-  size : Int
-  keys : List Str
-  q    : List Nat
-  lastAccessed : Nat
-deriving DecidableEq, Repr
-
 /-- a blocked `LockServer.Lock` call -/
 structure Pending where
   req  : Nat
@@ -44,6 +36,14 @@ structure Pending where
   size : Int
   lt   : Option Int
   deadline : Option Nat
+deriving DecidableEq, Repr
+
+/-- a `ManagedLock`: size, key list, FIFO of blocked calls (the semaphore's waiter list), idle clock -/
+structure LockRec where
+  size : Int
+  keys : List Str
+  q    : List Pending
+  lastAccessed : Nat
 deriving DecidableEq, Repr
 
 /-- a lease timer: what the `onTimeoutFunc` closure captured, and when it fires -/
@@ -160,13 +160,10 @@ the unit goes to the head waiter, whose blocked `LockServer.Lock` call then comp
 def handOver (s : St M) (name : Str) (r : LockRec) : St M × List Event :=
   match r.q with
   | [] => ({ s with locks := o.set s.locks name r }, [])
-  | req :: q' =>
-    match s.pending.find? (fun p => p.req = req) with
-    | none => ({ s with locks := o.set s.locks name { r with q := q' } }, [])   -- unreachable (invariant)
-    | some p =>
-      let s1 := { s with locks := o.set s.locks name { r with q := q', keys := r.keys ++ [p.key] },
-                         pending := s.pending.filter (fun p' => p'.req ≠ req) }
-      (book s1 p.sid name p.key p.size p.lt, [.done req true p.key none])
+  | p :: q' =>
+    let s1 := { s with locks := o.set s.locks name { r with q := q', keys := r.keys ++ [p.key] },
+                       pending := s.pending.filter (fun p' => p'.req ≠ p.req) }
+    (book s1 p.sid name p.key p.size p.lt, [.done p.req true p.key none])
 
 /-- `lock.Manager.Unlock` (getLock without create, deleted check, removeKey, Release) -/
 def mgrUnlock (s : St M) (name key : Str) : St M × Bool × Option Err × List Event :=
@@ -234,8 +231,8 @@ def srvLock (s : St M) (sid : Option Sid) (name : Str) (size lt wt : Option Int)
         let dl := match wt with
           | some t => if t > 0 then some (s.now + t.toNat * sec) else none
           | none => none
-        ({ s with locks := o.set s.locks name { r with q := r.q ++ [req] },
-                  pending := s.pending ++ [⟨req, sid, name, key, size, lt, dl⟩] },
+        let p : Pending := ⟨req, sid, name, key, size, lt, dl⟩
+        ({ s with locks := o.set s.locks name { r with q := r.q ++ [p] }, pending := s.pending ++ [p] },
          { pending := true })
 
 /-- `LockServer.Renew` (no session check in the code): `timermap.Reset` -/
@@ -250,7 +247,7 @@ def srvRenew (s : St M) (name key : Str) (t : Int) : St M × Resp :=
 /-- a blocked `Lock` call gives up (wait timeout / caller's context cancelled): leaves the FIFO -/
 def abandon (s : St M) (p : Pending) (e : Err) : St M × List Event :=
   let locks := match o.get s.locks p.name with
-    | some r => o.set s.locks p.name { r with q := r.q.filter (· ≠ p.req) }
+    | some r => o.set s.locks p.name { r with q := r.q.filter (fun p' => p'.req ≠ p.req) }
     | none => s.locks
   ({ s with locks := locks, pending := s.pending.filter (fun p' => p'.req ≠ p.req) },
    [.done p.req false p.key (some e)])
@@ -303,18 +300,18 @@ def earliestWait (s : St M) : Option (Pending × Nat) :=
     | some d, none => some (p, d)
     | some d, some a => if d < a.2 then some (p, d) else some a) none
 
-/-- process events in deadline order until `target`; on a tie: lease expiry, then wait time-out, then
+/-- process events in deadline order until `target` (result: state, events, tie flag, out-of-fuel flag); on a tie: lease expiry, then wait time-out, then
 GC tick, and the tie is reported (the harness never compares past a reported tie) -/
-def advanceTo (target : Nat) : (fuel : Nat) → St M → St M × List Event × Bool
-  | 0, s => ({ s with now := max s.now target }, [], false)
+def advanceTo (target : Nat) : (fuel : Nat) → St M → St M × List Event × Bool × Bool
+  | 0, s => ({ s with now := max s.now target }, [], false, true)     -- out of fuel: reported, never silently
   | fuel+1, s =>
     let tl := (earliestLease s).map (·.2.deadline)
     let tw := (earliestWait s).map (·.2)
     let tg := if c.gcInterval = 0 then none else some s.gcNext
     match minOpt (minOpt tl tw) tg with
-    | none => ({ s with now := max s.now target }, [], false)
+    | none => ({ s with now := max s.now target }, [], false, false)
     | some t =>
-      if t > target then ({ s with now := max s.now target }, [], false) else
+      if t > target then ({ s with now := max s.now target }, [], false, false) else
       let s := { s with now := max s.now t }
       let tie := ((tl == some t) && (tw == some t)) || ((tg == some t) && ((tl == some t) || (tw == some t)))
       let (s, ev) :=
@@ -327,8 +324,8 @@ def advanceTo (target : Nat) : (fuel : Nat) → St M → St M × List Event × B
           | some (p, _) => abandon o s p .waitTimeout
           | none => (s, [])
         else ({ gcPass o s c.gcMinIdle with gcNext := t + c.gcInterval }, [])
-      let (s', ev', tie') := advanceTo target fuel s
-      (s', ev ++ ev', tie || tie')
+      let (s', ev', tie', out) := advanceTo target fuel s
+      (s', ev ++ ev', tie || tie', out)
 
 /-! ### restart: `server.New` on the state file left behind -/
 
@@ -383,8 +380,8 @@ def step (s : St M) : Op → St M × Resp
   | .unlock _ name key => srvUnlock o s name key
   | .renew name key t => srvRenew s name key t
   | .advance dt =>
-    let (s, ev, tie) := advanceTo o c (s.now + dt) (4 * (s.timers.length + s.pending.length) + 100000) s
-    (s, { events := ev, tie := tie })
+    let (s, ev, tie, out) := advanceTo o c (s.now + dt) (4 * (s.timers.length + s.pending.length) + 100000) s
+    (s, { events := ev, tie := tie || out })
   | .gc minIdle => (gcPass o s minIdle, {})
   | .restart =>
     let (s, ev) := restart o c s
@@ -403,23 +400,33 @@ end
 
 /-! ### two representations of the lock table -/
 
+/-- drop every entry whose key's *visible* (first) value fails `p` (so the filter law holds for any list) -/
+def filtVisible (p : Str → LockRec → Bool) (m : List (Str × LockRec)) : List (Str × LockRec) :=
+  m.filter (fun e => match get m e.1 with | some v => p e.1 v | none => false)
+
 /-- flat association list -/
 def flatOps : MapOps (List (Str × LockRec)) where
   empty := []
   get := get
   set := set
-  filter := filt
+  filter := filtVisible
   toList := id
 
-/-- `manager.go`: `shards[h(name) % len(shards)]`, each shard a map -/
+/-- `manager.go`: `shards[h(name) % len(shards)]`, each shard a map; at least one shard -/
 structure Sharded where
   shards : List (List (Str × LockRec))
+  ne : 0 < shards.length
+
+def Sharded.idx (h : Str → Nat) (m : Sharded) (k : Str) : Nat := h k % m.shards.length
+
+def Sharded.shard (h : Str → Nat) (m : Sharded) (k : Str) : List (Str × LockRec) :=
+  (m.shards[m.idx h k]?).getD []
 
 def shardedOps (h : Str → Nat) (n : Nat) : MapOps Sharded where
-  empty := ⟨List.replicate (max n 1) []⟩
-  get m k := get (m.shards.getD (h k % m.shards.length) []) k
-  set m k r := ⟨m.shards.set (h k % m.shards.length) (set (m.shards.getD (h k % m.shards.length) []) k r)⟩
-  filter p m := ⟨m.shards.map (filt p)⟩
+  empty := ⟨List.replicate (max n 1) [], by simp; omega⟩
+  get m k := get (m.shard h k) k
+  set m k r := ⟨m.shards.set (m.idx h k) (set (m.shard h k) k r), by simp [m.ne]⟩
+  filter p m := ⟨m.shards.map (filtVisible p), by simp [m.ne]⟩
   toList m := m.shards.flatten
 
 end Ldlm.Core
